@@ -1,1 +1,927 @@
-//! C05 harnesses (Engine K)
+//! C05 — tradable liquidity equals the sum of the positions covering the current tick (Engine K part).
+//!
+//! Invariant I (all sums over the positions of one pool, in ℤ):
+//!   pool.liquidity = Σ L over positions with lower <= cur < upper;
+//!   for each tick t: net(t) = Σ_{lower = t} L − Σ_{upper = t} L,  gross(t) = Σ_{lower = t or upper = t} L,
+//!   initialized(t) <=> gross(t) != 0.
+//! Inductive steps decided here, each from a symbolic pre-state satisfying I in which all positions other than the
+//! one being modified are summarised by symbolic ghost sums:
+//!  (a) liquidity change of one position. Component lemmas with ghost sums (quick tier): `next_whirlpool_liquidity`,
+//!      `next_tick_modify_liquidity_update`, `next_position_modify_liquidity_update` and their Pinocchio ports; wiring
+//!      (thorough tier): `calculate_modify_liquidity` + `sync_modify_liquidity_values` and the Pinocchio pair store
+//!      exactly the component results (tick arrays: a two-slot implementation of the program's traits, see `Pair`);
+//!  (b) `swap_manager::calculate_update` (hook `verif_calculate_update`): crossing a tick in either direction.
+//! That the swap loop crosses exactly the initialised ticks in order is C10; composing the steps over unbounded
+//! histories and position sets is a written argument (DESIGN §4).
+use crate::c07::*;
+use crate::common::*;
+use ::whirlpool::errors::ErrorCode;
+use ::whirlpool::manager::liquidity_manager::{calculate_modify_liquidity, sync_modify_liquidity_values};
+use ::whirlpool::manager::swap_manager::verif_calculate_update;
+use ::whirlpool::pinocchio::ported::manager_liquidity_manager::{
+    pino_calculate_modify_liquidity, pino_sync_modify_liquidity_values,
+};
+use ::whirlpool::pinocchio::state::whirlpool::tick_array::TickArray as PTickArray;
+use ::whirlpool::pinocchio::state::whirlpool::tick_array::TickUpdate as PTickUpdate;
+use ::whirlpool::pinocchio::state::whirlpool::{MemoryMappedPosition, MemoryMappedTick};
+use ::whirlpool::state::*;
+
+/// Tick-array stand-in implementing the program's own traits (`state::TickArrayType`, Pinocchio `TickArray`): it
+/// holds the one or two ticks the step touches, keyed by tick index, and answers every other index with
+/// TickNotFound. The real fixed / dynamic array addressing (`get_tick` / `update_tick` offset arithmetic and the
+/// single-slot write) is NOT part of this lemma — with the real 10 kB arrays and symbolic slots CBMC exceeds 14 GB;
+/// it is decided in C10 (contracts G2, G3) and C13. `variable` (symbolic) selects the fixed / dynamic branch of
+/// `calculate_modify_tick_array`.
+struct Pair {
+    n: usize,
+    idx: [i32; 2],
+    t: [TB; 2],
+    variable: bool,
+    start: i32,
+}
+impl Pair {
+    fn find(&self, tick_index: i32) -> Option<usize> {
+        if self.n >= 1 && self.idx[0] == tick_index {
+            Some(0)
+        } else if self.n >= 2 && self.idx[1] == tick_index {
+            Some(1)
+        } else {
+            None
+        }
+    }
+    fn tick(&self, tick_index: i32) -> TB {
+        match self.find(tick_index) {
+            Some(k) => self.t[k],
+            None => {
+                assert!(false, "tick present");
+                [0u8; 113]
+            }
+        }
+    }
+}
+impl TickArrayType for Pair {
+    fn is_variable_size(&self) -> bool {
+        self.variable
+    }
+    fn start_tick_index(&self) -> i32 {
+        self.start
+    }
+    fn whirlpool(&self) -> anchor_lang::prelude::Pubkey {
+        anchor_lang::prelude::Pubkey::default()
+    }
+    fn get_next_init_tick_index(&self, _tick_index: i32, _tick_spacing: u16, _a_to_b: bool) -> anchor_lang::Result<Option<i32>> {
+        Ok(None)
+    }
+    fn get_tick(&self, tick_index: i32, _tick_spacing: u16) -> anchor_lang::Result<Tick> {
+        match self.find(tick_index) {
+            Some(k) => Ok(tick_of(&self.t[k])),
+            None => Err(ErrorCode::TickNotFound.into()),
+        }
+    }
+    fn update_tick(&mut self, tick_index: i32, _tick_spacing: u16, update: &TickUpdate) -> anchor_lang::Result<()> {
+        match self.find(tick_index) {
+            Some(k) => {
+                let mut t = tick_of(&self.t[k]);
+                t.update(update); // the real `Tick::update`
+                self.t[k] = tick_bytes(&t);
+                Ok(())
+            }
+            None => Err(ErrorCode::TickNotFound.into()),
+        }
+    }
+}
+static PAIR_KEY: ::whirlpool::pinocchio::state::Pubkey = [0u8; 32];
+impl PTickArray for Pair {
+    fn is_variable_size(&self) -> bool {
+        self.variable
+    }
+    fn whirlpool(&self) -> &::whirlpool::pinocchio::state::Pubkey {
+        &PAIR_KEY
+    }
+    fn start_tick_index(&self) -> i32 {
+        self.start
+    }
+    fn get_tick(&self, tick_index: i32, _tick_spacing: u16) -> ::whirlpool::pinocchio::Result<&MemoryMappedTick> {
+        match self.find(tick_index) {
+            Some(k) => Ok(mtick(&self.t[k])),
+            None => Err(ErrorCode::TickNotFound.into()),
+        }
+    }
+    fn update_tick(&mut self, tick_index: i32, _tick_spacing: u16, update: &PTickUpdate) -> ::whirlpool::pinocchio::Result<()> {
+        match self.find(tick_index) {
+            Some(k) => {
+                // copy out / update / copy back: writing through a pointer cast of `&mut self.t[k]` with a symbolic k
+                // made CBMC 6.11 report a spurious difference in the first byte (tool artefact of this stand-in only)
+                let mut tb = self.t[k];
+                mtick_mut(&mut tb).update(update); // the real `MemoryMappedTick::update`
+                self.t[k] = tb;
+                Ok(())
+            }
+            None => Err(ErrorCode::TickNotFound.into()),
+        }
+    }
+}
+fn mpos_mut(b: &mut PB) -> &mut MemoryMappedPosition {
+    unsafe { &mut *(b.as_mut_ptr() as *mut MemoryMappedPosition) }
+}
+
+/// post-state read back from the accounts
+struct Post {
+    pool_liquidity: u128,
+    position_liquidity: u128,
+}
+
+trait Modify {
+    /// calculate + sync on the account bytes; `au == None` means lower and upper tick share one array account
+    fn run(w: &mut WB, p: &mut PB, al: &mut Pair, au: Option<&mut Pair>, delta: i128, ts: u64) -> Result<Post, u32>;
+}
+
+impl Modify for Anchor {
+    fn run(w: &mut WB, p: &mut PB, al: &mut Pair, au: Option<&mut Pair>, delta: i128, ts: u64) -> Result<Post, u32> {
+        let mut wp = wp_of(w);
+        let mut pos = pos_of(p);
+        let update = match &au {
+            Some(u) => calculate_modify_liquidity(&wp, &pos, &*al, &**u, delta, ts),
+            None => calculate_modify_liquidity(&wp, &pos, &*al, &*al, delta, ts),
+        };
+        let update = match update {
+            Ok(u) => u,
+            Err(e) => {
+                let c = acode(&e);
+                core::mem::forget(e);
+                return Err(c);
+            }
+        };
+        let r = match au {
+            Some(u) => sync_modify_liquidity_values(&mut wp, &mut pos, al, Some(u as &mut dyn TickArrayType), &update, ts),
+            None => sync_modify_liquidity_values(&mut wp, &mut pos, al, None, &update, ts),
+        };
+        core::mem::forget(update);
+        match r {
+            Ok(()) => Ok(Post { pool_liquidity: wp.liquidity, position_liquidity: pos.liquidity }),
+            Err(e) => {
+                let c = acode(&e);
+                core::mem::forget(e);
+                Err(c)
+            }
+        }
+    }
+}
+
+impl Modify for Pino {
+    fn run(w: &mut WB, p: &mut PB, al: &mut Pair, au: Option<&mut Pair>, delta: i128, ts: u64) -> Result<Post, u32> {
+        let update = match &au {
+            Some(u) => pino_calculate_modify_liquidity(mwp(w), mpos(p), &*al, &**u, delta, ts),
+            None => pino_calculate_modify_liquidity(mwp(w), mpos(p), &*al, &*al, delta, ts),
+        };
+        let update = match update {
+            Ok(u) => u,
+            Err(e) => {
+                let c = ucode(&e);
+                core::mem::forget(e);
+                return Err(c);
+            }
+        };
+        let r = match au {
+            Some(u) => pino_sync_modify_liquidity_values(mwp_mut(w), mpos_mut(p), al, Some(u as &mut dyn PTickArray), &update, ts),
+            None => pino_sync_modify_liquidity_values(mwp_mut(w), mpos_mut(p), al, None, &update, ts),
+        };
+        core::mem::forget(update);
+        match r {
+            Ok(()) => Ok(Post { pool_liquidity: mwp(w).liquidity(), position_liquidity: mpos(p).liquidity() }),
+            Err(e) => {
+                let c = ucode(&e);
+                core::mem::forget(e);
+                Err(c)
+            }
+        }
+    }
+}
+
+// contract stubs: C05 does not depend on reward / fee amounts, so the two multiply-divide helpers on the path may
+// return anything their signature allows (over-approximation; exact for d == 0).
+fn stub_md_any(_n0: u128, _n1: u128, d: u128) -> Result<u128, ErrorCode> {
+    if d == 0 {
+        Err(ErrorCode::DivideByZero)
+    } else if kani::any() {
+        Ok(kani::any())
+    } else {
+        Err(ErrorCode::MulDivOverflow)
+    }
+}
+fn stub_ms_any(_n0: u128, _n1: u128) -> Result<u64, ErrorCode> {
+    if kani::any() {
+        Ok(kani::any())
+    } else {
+        Err(ErrorCode::MultiplicationShiftRightOverflow)
+    }
+}
+
+/// L + delta in ℤ, None if it leaves [0, 2^128)
+fn add_delta(l: u128, delta: i128) -> Option<u128> {
+    if delta >= 0 {
+        l.checked_add(delta as u128)
+    } else {
+        l.checked_sub(delta.unsigned_abs())
+    }
+}
+/// a − b in ℤ as i128, None if it leaves the i128 range (a, b are u128 sums)
+fn signed_diff(a: u128, b: u128) -> Option<i128> {
+    if a >= b {
+        let d = a - b;
+        if d <= i128::MAX as u128 {
+            Some(d as i128)
+        } else {
+            None
+        }
+    } else {
+        let d = b - a;
+        if d <= 1u128 << 127 {
+            Some((d as i128).wrapping_neg())
+        } else {
+            None
+        }
+    }
+}
+
+/// Step (a), wiring. The real calculate + sync pair run on symbolic accounts (any stored ticks, any placement of the
+/// current tick, both ticks in one array account or in two, fixed or dynamic flavour) against the component
+/// functions called directly on the same pre-state:
+///   Ok  => stored pool.liquidity == `next_whirlpool_liquidity`(pool, upper, lower, delta),
+///          stored lower / upper tick (net, gross, initialized) == `next_tick_modify_liquidity_update`(.., is_upper = false / true)
+///          at the position's own tick indexes, stored position.liquidity == `next_position_modify_liquidity_update`.liquidity;
+///   Err <=> LiquidityZero case | earlier timestamp | one of those four component calls fails; LiquidityZero iff its case.
+/// With the component lemmas below (each component result == I recomputed from ghost sums) this is step (a).
+/// Whole-path formula: ~2 M variables; the goals are equalities between identical sub-circuits.
+fn wiring<E: Modify + Eng>(pino: bool) {
+    let mut w: WB = any_whirlpool();
+    let mut p: PB = any_pos();
+    let tlb = any_tick();
+    let tub = any_tick();
+    let spacing: u16 = kani::any();
+    let tl: i32 = kani::any();
+    let tu: i32 = kani::any();
+    let variable: [bool; 2] = kani::any();
+    let same_array: bool = kani::any();
+    let delta: i128 = kani::any();
+    let ts: u64 = kani::any();
+    kani::assume(spacing >= 1);
+    kani::assume(tl < tu);
+    kani::assume(tl >= MIN_TICK_INDEX && tu <= MAX_TICK_INDEX);
+    w[W_TICK_SPACING] = spacing.to_le_bytes()[0];
+    w[W_TICK_SPACING + 1] = spacing.to_le_bytes()[1];
+    wr32(&mut p, 88, tl);
+    wr32(&mut p, 92, tu);
+    let (w0, p0) = (w, p);
+    let cur = rd32(&w0, W_TICK_CURRENT);
+    let (ga, gb) = (rd128(&w0, W_FEE_GROWTH_A), rd128(&w0, W_FEE_GROWTH_B));
+    let lp = rd128(&p0, 72);
+    let last_ts = rd64(&w0, W_REWARD_TS);
+    let mut al = Pair { n: if same_array { 2 } else { 1 }, idx: [tl, tu], t: [tlb, tub], variable: variable[0], start: 0 };
+    let mut au = Pair { n: 1, idx: [tu, tu], t: [tub, tub], variable: variable[1], start: 0 };
+
+    // -- the real step
+    let r = if same_array { <E as Modify>::run(&mut w, &mut p, &mut al, None, delta, ts) } else { <E as Modify>::run(&mut w, &mut p, &mut al, Some(&mut au), delta, ts) };
+    let ntl = al.tick(tl);
+    let ntu = if same_array { al.tick(tu) } else { au.tick(tu) };
+
+    // -- the components on the same pre-state (liquidity fields do not depend on the fee / reward arguments)
+    let c_pool: Result<u128, u32> = if pino {
+        match ::whirlpool::pinocchio::ported::manager_liquidity_manager::verif_pino_next_whirlpool_liquidity(mwp(&w0), tu, tl, delta) {
+            Ok(v) => Ok(v),
+            Err(e) => {
+                let c = ucode(&e);
+                core::mem::forget(e);
+                Err(c)
+            }
+        }
+    } else {
+        ::whirlpool::manager::whirlpool_manager::next_whirlpool_liquidity(&wp_of(&w0), tu, tl, delta).map_err(ecode)
+    };
+    let rw0 = w_rw(&w0);
+    let c_tl = <E as Eng>::modify(&tlb, tl, cur, ga, gb, &rw0, delta, false);
+    let c_tu = <E as Eng>::modify(&tub, tu, cur, ga, gb, &rw0, delta, true);
+    let c_pos = <E as Eng>::pos_update(&p0, delta, 0, 0, &[0; 3]);
+    let zero_case = delta == 0 && lp == 0;
+    let any_err = zero_case || ts < last_ts || c_pool.is_err() || c_tl.is_err() || c_tu.is_err() || c_pos.is_err();
+
+    kani::cover!(r.is_ok() && delta < 0 && same_array, "withdrawal, one array");
+    kani::cover!(r.is_ok() && delta > 0 && !same_array && cur >= tl && cur < tu, "deposit in range, two arrays");
+    kani::cover!(matches!(r, Err(c) if c == ecode(ErrorCode::LiquidityNetError)), "net error");
+    match r {
+        Ok(post) => {
+            assert!(!any_err);
+            assert!(c_pool == Ok(post.pool_liquidity), "pool.liquidity wired to next_whirlpool_liquidity(upper, lower)");
+            if let Ok(n) = &c_tl {
+                assert!(t_net(n) == t_net(&ntl) && t_gross(n) == t_gross(&ntl) && t_init(n) == t_init(&ntl), "lower tick wired to the lower-bound update");
+            }
+            if let Ok(n) = &c_tu {
+                assert!(t_net(n) == t_net(&ntu) && t_gross(n) == t_gross(&ntu) && t_init(n) == t_init(&ntu), "upper tick wired to the upper-bound update");
+            }
+            if let Ok(u) = &c_pos {
+                assert!(u.liquidity == post.position_liquidity);
+            }
+        }
+        Err(c) => {
+            assert!(any_err, "Err only for LiquidityZero / InvalidTimestamp / a failing component");
+            assert!((c == ecode(ErrorCode::LiquidityZero)) == zero_case);
+            assert!(
+                c == ecode(ErrorCode::LiquidityZero)
+                    || c == ecode(ErrorCode::InvalidTimestamp)
+                    || c == ecode(ErrorCode::LiquidityOverflow)
+                    || c == ecode(ErrorCode::LiquidityUnderflow)
+                    || c == ecode(ErrorCode::LiquidityNetError)
+            );
+        }
+    }
+}
+
+// ------------------------------------------------------------------------------------------------
+// Step (a), component lemmas (the functions `calculate_modify_liquidity` is wired from), quick tier.
+
+/// pool.liquidity: `next_whirlpool_liquidity` / `pino_next_whirlpool_liquidity` with ghost g_in = Σ L of the other
+/// positions covering cur and this position's lp: Ok => result == Σ over covering positions with lp' = lp + delta
+/// (in ℤ; unchanged when the position does not cover cur); Err <=> in range and pool.liquidity + delta leaves u128.
+fn pool_step(pino: bool, place: u8) {
+    let mut w: WB = any_whirlpool();
+    let tl: i32 = kani::any();
+    let tu: i32 = kani::any();
+    let cur: i32 = kani::any();
+    let (g_in, lp): (u128, u128) = kani::any();
+    let delta: i128 = kani::any();
+    kani::assume(tl < tu);
+    assume_place(place, cur, tl, tu);
+    let in_range = place == INSIDE;
+    let pool = if in_range { g_in.checked_add(lp) } else { Some(g_in) };
+    kani::assume(pool.is_some());
+    let pool = pool.unwrap();
+    wr128(&mut w, W_LIQUIDITY, pool);
+    wr32(&mut w, W_TICK_CURRENT, cur);
+
+    let r: Result<u128, u32> = if pino {
+        match ::whirlpool::pinocchio::ported::manager_liquidity_manager::verif_pino_next_whirlpool_liquidity(mwp(&w), tu, tl, delta) {
+            Ok(v) => Ok(v),
+            Err(e) => {
+                let c = ucode(&e);
+                core::mem::forget(e);
+                Err(c)
+            }
+        }
+    } else {
+        ::whirlpool::manager::whirlpool_manager::next_whirlpool_liquidity(&wp_of(&w), tu, tl, delta).map_err(ecode)
+    };
+    let lp2 = add_delta(lp, delta);
+    kani::cover!(r.is_ok() && delta != 0, "ok");
+    kani::cover!(if in_range { r.is_err() } else { cur == tl.wrapping_sub(1) || cur == tu }, "in range: error / out of range: next to a bound");
+    match r {
+        Ok(v) => {
+            if in_range {
+                hint(v == pool.wrapping_add(delta as u128));
+                // lp' may be negative here only if the position update fails later (`pos_step`); then nothing is stored
+                if let Some(l2) = lp2 {
+                    assert!(g_in.checked_add(l2) == Some(v), "pool.liquidity == sum over covering positions");
+                }
+            } else {
+                assert!(v == g_in);
+            }
+        }
+        Err(c) => {
+            assert!(in_range && add_delta(pool, delta).is_none());
+            assert!(c == ecode(ErrorCode::LiquidityOverflow) || c == ecode(ErrorCode::LiquidityUnderflow));
+        }
+    }
+}
+
+/// one bound tick: `next_tick_modify_liquidity_update` (Anchor / Pinocchio through c07::Eng) with ghosts a = Σ L of the
+/// other positions with lower == t, b = Σ L of the others with upper == t, this position's lp counted on the side
+/// given by `upper`. Ok (and lp' = lp + delta >= 0) => gross' == a + b + lp', net' == (a [+ lp']) - (b [+ lp']),
+/// initialized' <=> gross' != 0 (all in ℤ, each fitting its field); Err <=> gross + delta leaves u128, or the tick
+/// stays in use and net +/- delta leaves i128.
+pub(crate) const T_GROSS: u8 = 0;
+pub(crate) const T_NET_DEPOSIT: u8 = 1; // net, delta > 0
+pub(crate) const T_NET_WITHDRAW: u8 = 3; // net, delta < 0
+pub(crate) const T_ERR: u8 = 2;
+fn tick_step<E: Eng>(upper: bool, part: u8) {
+    let mut t = any_tick();
+    let idx: i32 = kani::any();
+    let cur: i32 = kani::any();
+    let ga: u128 = kani::any();
+    let gb: u128 = kani::any();
+    let rw = Rw::any();
+    let (a, b, lp): (u128, u128, u128) = kani::any();
+    let delta: i128 = kani::any();
+    let gross = a.checked_add(b).and_then(|x| x.checked_add(lp));
+    let net = if upper { b.checked_add(lp).and_then(|x| signed_diff(a, x)) } else { a.checked_add(lp).and_then(|x| signed_diff(x, b)) };
+    kani::assume(gross.is_some() && net.is_some());
+    let (gross, net) = (gross.unwrap(), net.unwrap());
+    t[0] = (gross != 0) as u8;
+    wr128(&mut t, 1, net as u128);
+    wr128(&mut t, 17, gross);
+
+    if part == T_NET_DEPOSIT {
+        kani::assume(delta > 0);
+    }
+    if part == T_NET_WITHDRAW {
+        kani::assume(delta < 0);
+    }
+    let r = E::modify(&t, idx, cur, ga, gb, &rw, delta, upper);
+    let lp2 = add_delta(lp, delta);
+    kani::cover!(if part == T_NET_WITHDRAW { matches!(&r, Ok(n) if t_gross(n) == 0 && gross != 0) } else { r.is_ok() && delta > 0 && gross == 0 }, "deposit initialises / withdrawal de-initialises the tick");
+    kani::cover!(if part == T_NET_DEPOSIT { r.is_ok() && net < 0 && lp != 0 } else { matches!(&r, Ok(n) if delta < 0 && t_gross(n) != 0 && lp2 == Some(0)) }, "full withdrawal with the tick staying initialised (shared bound) / deposit on a negative net");
+    kani::cover!(matches!(r, Err(c) if c == ecode(ErrorCode::LiquidityNetError)), "net error");
+    match r {
+        Ok(n) => {
+            if part == T_GROSS {
+                hint(t_gross(&n) == gross.wrapping_add(delta as u128));
+                assert!(t_init(&n) == (t_gross(&n) != 0), "initialized <=> gross != 0");
+                if delta == 0 {
+                    assert!(same_tick(&n, &t), "no change without a liquidity change");
+                }
+                if let Some(l2) = lp2 {
+                    hint(l2 == lp.wrapping_add(delta as u128));
+                    let x_gross = a.checked_add(b).and_then(|x| x.checked_add(l2));
+                    assert!(x_gross == Some(t_gross(&n)), "gross == sum over bounded positions");
+                }
+            }
+            if part == T_NET_DEPOSIT || part == T_NET_WITHDRAW {
+                hint(t_gross(&n) == gross.wrapping_add(delta as u128));
+                hint(t_gross(&n) == 0 || t_net(&n) == if upper { net.wrapping_sub(delta) } else { net.wrapping_add(delta) });
+                if let Some(l2) = lp2 {
+                    hint(l2 == lp.wrapping_add(delta as u128));
+                    // (x, y) = (Σ lower == t, Σ upper == t) after the step; x - y must be the stored net, in ℤ
+                    let (x0, y0) = if upper { (a, b.wrapping_add(lp)) } else { (a.wrapping_add(lp), b) };
+                    let (x, y) = if upper { (a, b.wrapping_add(l2)) } else { (a.wrapping_add(l2), b) };
+                    hint(net as u128 == x0.wrapping_sub(y0));
+                    hint(t_net(&n) as u128 == x.wrapping_sub(y)); // equal mod 2^128
+                    hint((x >= y) == (t_net(&n) >= 0)); // ... and of the right sign: equal in ℤ
+                    let x_net = if upper { b.checked_add(l2).and_then(|v| signed_diff(a, v)) } else { a.checked_add(l2).and_then(|v| signed_diff(v, b)) };
+                    assert!(x_net == Some(t_net(&n)), "net == lower sum - upper sum");
+                }
+            }
+        }
+        Err(c) => {
+            if part == T_ERR {
+                let g2 = add_delta(gross, delta);
+                let n2 = if upper { net.checked_sub(delta) } else { net.checked_add(delta) };
+                assert!(delta != 0 && (g2.is_none() || (g2 != Some(0) && n2.is_none())));
+                assert!((c == ecode(ErrorCode::LiquidityNetError)) == g2.is_some());
+                assert!(c == ecode(ErrorCode::LiquidityNetError) || c == ecode(ErrorCode::LiquidityOverflow) || c == ecode(ErrorCode::LiquidityUnderflow));
+            }
+        }
+    }
+    if part == T_ERR {
+        // converse: no documented check fires => Ok
+        let g2 = add_delta(gross, delta);
+        let n2 = if upper { net.checked_sub(delta) } else { net.checked_add(delta) };
+        if delta == 0 || (g2.is_some() && (g2 == Some(0) || n2.is_some())) {
+            assert!(E::modify(&t, idx, cur, ga, gb, &rw, delta, upper).is_ok());
+        }
+    }
+}
+
+/// position.liquidity: `next_position_modify_liquidity_update` (Anchor / Pinocchio): Ok => liquidity' == lp + delta,
+/// Err(LiquidityOverflow / LiquidityUnderflow) <=> lp + delta leaves u128 (fee / reward credits: C07 / C11 L4)
+fn pos_step<E: Eng>() {
+    let p = any_pos();
+    let delta: i128 = kani::any();
+    let ia: u128 = kani::any();
+    let ib: u128 = kani::any();
+    let ri: [u128; 3] = kani::any();
+    let lp = rd128(&p, 72);
+    let r = E::pos_update(&p, delta, ia, ib, &ri);
+    kani::cover!(r.is_ok() && delta < 0, "withdrawal");
+    kani::cover!(r.is_err(), "error");
+    match r {
+        Ok(u) => assert!(add_delta(lp, delta) == Some(u.liquidity)),
+        Err(c) => {
+            assert!(add_delta(lp, delta).is_none());
+            assert!(c == if delta > 0 { ecode(ErrorCode::LiquidityOverflow) } else { ecode(ErrorCode::LiquidityUnderflow) });
+        }
+    }
+}
+
+/// Step (b). Tick t with ghost sums a = Σ L of positions with lower == t, b = Σ L with upper == t (so net = a − b,
+/// assumed to fit i128 and != i128::MIN, see below) and c = Σ L of positions spanning t (lower < t < upper).
+/// The segment below t is covered by b + c, the segment from t upwards by a + c (both assumed to fit u128).
+/// b_to_a (upwards): pre liquidity == b + c  =>  Ok and post == a + c;  a_to_b: pre == a + c  =>  Ok and post == b + c;
+/// net, gross and `initialized` of the tick are not changed by the crossing.
+/// net == i128::MIN would need b == 2^127 of liquidity ending at one tick; deposits are bounded by u64 token
+/// amounts (C08), which keeps every liquidity sum below 2^110; the code negates net in a_to_b direction, which
+/// overflows only for that value.
+fn crossing_step(a_to_b: bool) {
+    let mut t = any_tick();
+    let (a, b, c): (u128, u128, u128) = kani::any();
+    let ga: u128 = kani::any();
+    let gb: u128 = kani::any();
+    let rw = Rw::any();
+    let below = b.checked_add(c);
+    let above = a.checked_add(c);
+    let gross = a.checked_add(b);
+    let net = signed_diff(a, b);
+    kani::assume(below.is_some() && above.is_some() && gross.is_some() && net.is_some());
+    kani::assume(net.unwrap() != i128::MIN);
+    kani::assume(gross.unwrap() != 0); // only initialised ticks are crossed (C10)
+    t[0] = 1;
+    wr128(&mut t, 1, net.unwrap() as u128);
+    wr128(&mut t, 17, gross.unwrap());
+    let (from, to) = if a_to_b { (above.unwrap(), below.unwrap()) } else { (below.unwrap(), above.unwrap()) };
+
+    let r = verif_calculate_update(&tick_of(&t), a_to_b, from, ga, gb, &rw.anchor());
+    kani::cover!(r.is_ok() && a > b && c != 0, "positive net");
+    kani::cover!(r.is_ok() && a < b, "negative net");
+    match &r {
+        Ok((u, next)) => {
+            assert!(*next == to, "liquidity after crossing == sum over positions covering the destination segment");
+            assert!(u.liquidity_net == net.unwrap() && u.liquidity_gross == gross.unwrap() && u.initialized);
+        }
+        Err(_) => assert!(false, "crossing between two representable segment sums cannot fail"),
+    }
+    core::mem::forget(r);
+}
+
+/// Step (b), error side: from an arbitrary pre liquidity, `calculate_update` fails iff liquidity ± net leaves u128,
+/// and otherwise returns exactly liquidity + net (b_to_a) / liquidity − net (a_to_b).
+fn crossing_error_iff(a_to_b: bool) {
+    let t = any_tick();
+    let liq: u128 = kani::any();
+    let ga: u128 = kani::any();
+    let gb: u128 = kani::any();
+    let rw = Rw::any();
+    let net = t_net(&t);
+    kani::assume(net != i128::MIN);
+    let expect = if a_to_b { add_delta(liq, net.wrapping_neg()) } else { add_delta(liq, net) };
+    let r = verif_calculate_update(&tick_of(&t), a_to_b, liq, ga, gb, &rw.anchor());
+    kani::cover!(r.is_err(), "error");
+    kani::cover!(r.is_ok() && net != 0, "ok");
+    match &r {
+        Ok((_, next)) => assert!(expect == Some(*next)),
+        Err(e) => {
+            assert!(expect.is_none());
+            let c = acode(e);
+            assert!(c == ecode(ErrorCode::LiquidityOverflow) || c == ecode(ErrorCode::LiquidityUnderflow));
+        }
+    }
+    core::mem::forget(r);
+}
+
+// ------------------------------------------------------------------------------------------------
+// harnesses
+
+/// (a) pool.liquidity `next_whirlpool_liquidity` with ghost sum g_in of the other covering positions; cur < lower: unchanged
+// @verif prop=C05 tier=quick timeout=300
+#[kani::proof]
+#[kani::unwind(34)]
+#[kani::stub(alloc::fmt::format, stub_format)]
+#[kani::stub(<anchor_lang::error::Error as core::convert::From<::whirlpool::errors::ErrorCode>>::from, stub_err_from_code)]
+#[kani::stub(<::whirlpool::pinocchio::errors::UnifiedError as core::convert::From<::whirlpool::errors::ErrorCode>>::from, stub_unified_from_code)]
+fn c05_pool_below_anchor() {
+    pool_step(false, BELOW);
+}
+
+/// (a) pool.liquidity `next_whirlpool_liquidity` with ghost sum g_in of the other covering positions; lower <= cur < upper incl. cur == lower: == g_in + lp + delta, Err iff that leaves u128
+// @verif prop=C05 tier=quick timeout=300
+#[kani::proof]
+#[kani::unwind(34)]
+#[kani::stub(alloc::fmt::format, stub_format)]
+#[kani::stub(<anchor_lang::error::Error as core::convert::From<::whirlpool::errors::ErrorCode>>::from, stub_err_from_code)]
+#[kani::stub(<::whirlpool::pinocchio::errors::UnifiedError as core::convert::From<::whirlpool::errors::ErrorCode>>::from, stub_unified_from_code)]
+fn c05_pool_inside_anchor() {
+    pool_step(false, INSIDE);
+}
+
+/// (a) pool.liquidity `next_whirlpool_liquidity` with ghost sum g_in of the other covering positions; cur >= upper incl. cur == upper: unchanged
+// @verif prop=C05 tier=quick timeout=300
+#[kani::proof]
+#[kani::unwind(34)]
+#[kani::stub(alloc::fmt::format, stub_format)]
+#[kani::stub(<anchor_lang::error::Error as core::convert::From<::whirlpool::errors::ErrorCode>>::from, stub_err_from_code)]
+#[kani::stub(<::whirlpool::pinocchio::errors::UnifiedError as core::convert::From<::whirlpool::errors::ErrorCode>>::from, stub_unified_from_code)]
+fn c05_pool_above_anchor() {
+    pool_step(false, ABOVE);
+}
+
+/// (a) pool.liquidity `pino_next_whirlpool_liquidity` with ghost sum g_in of the other covering positions; cur < lower: unchanged
+// @verif prop=C05 tier=quick timeout=300
+#[kani::proof]
+#[kani::unwind(34)]
+#[kani::stub(alloc::fmt::format, stub_format)]
+#[kani::stub(<anchor_lang::error::Error as core::convert::From<::whirlpool::errors::ErrorCode>>::from, stub_err_from_code)]
+#[kani::stub(<::whirlpool::pinocchio::errors::UnifiedError as core::convert::From<::whirlpool::errors::ErrorCode>>::from, stub_unified_from_code)]
+fn c05_pool_below_pino() {
+    pool_step(true, BELOW);
+}
+
+/// (a) pool.liquidity `pino_next_whirlpool_liquidity` with ghost sum g_in of the other covering positions; lower <= cur < upper incl. cur == lower: == g_in + lp + delta, Err iff that leaves u128
+// @verif prop=C05 tier=quick timeout=300
+#[kani::proof]
+#[kani::unwind(34)]
+#[kani::stub(alloc::fmt::format, stub_format)]
+#[kani::stub(<anchor_lang::error::Error as core::convert::From<::whirlpool::errors::ErrorCode>>::from, stub_err_from_code)]
+#[kani::stub(<::whirlpool::pinocchio::errors::UnifiedError as core::convert::From<::whirlpool::errors::ErrorCode>>::from, stub_unified_from_code)]
+fn c05_pool_inside_pino() {
+    pool_step(true, INSIDE);
+}
+
+/// (a) pool.liquidity `pino_next_whirlpool_liquidity` with ghost sum g_in of the other covering positions; cur >= upper incl. cur == upper: unchanged
+// @verif prop=C05 tier=quick timeout=300
+#[kani::proof]
+#[kani::unwind(34)]
+#[kani::stub(alloc::fmt::format, stub_format)]
+#[kani::stub(<anchor_lang::error::Error as core::convert::From<::whirlpool::errors::ErrorCode>>::from, stub_err_from_code)]
+#[kani::stub(<::whirlpool::pinocchio::errors::UnifiedError as core::convert::From<::whirlpool::errors::ErrorCode>>::from, stub_unified_from_code)]
+fn c05_pool_above_pino() {
+    pool_step(true, ABOVE);
+}
+
+/// (a) `next_tick_modify_liquidity_update`, this position counted as lower bound, ghost sums a (others with lower == t), b (others with upper == t): gross == a + b + lp', initialized <=> gross != 0, delta == 0 is a no-op
+// @verif prop=C05 tier=quick timeout=300
+#[kani::proof]
+#[kani::unwind(34)]
+#[kani::stub(alloc::fmt::format, stub_format)]
+#[kani::stub(<anchor_lang::error::Error as core::convert::From<::whirlpool::errors::ErrorCode>>::from, stub_err_from_code)]
+#[kani::stub(<::whirlpool::pinocchio::errors::UnifiedError as core::convert::From<::whirlpool::errors::ErrorCode>>::from, stub_unified_from_code)]
+fn c05_tick_lower_gross_anchor() {
+    tick_step::<Anchor>(false, T_GROSS);
+}
+
+/// (a) `next_tick_modify_liquidity_update`, this position counted as lower bound, ghost sums a (others with lower == t), b (others with upper == t): delta > 0: net == lower sum - upper sum in ℤ
+// @verif prop=C05 tier=quick timeout=300
+#[kani::proof]
+#[kani::unwind(34)]
+#[kani::stub(alloc::fmt::format, stub_format)]
+#[kani::stub(<anchor_lang::error::Error as core::convert::From<::whirlpool::errors::ErrorCode>>::from, stub_err_from_code)]
+#[kani::stub(<::whirlpool::pinocchio::errors::UnifiedError as core::convert::From<::whirlpool::errors::ErrorCode>>::from, stub_unified_from_code)]
+fn c05_tick_lower_net_deposit_anchor() {
+    tick_step::<Anchor>(false, T_NET_DEPOSIT);
+}
+
+/// (a) `next_tick_modify_liquidity_update`, this position counted as lower bound, ghost sums a (others with lower == t), b (others with upper == t): delta < 0: net == lower sum - upper sum in ℤ
+// @verif prop=C05 tier=quick timeout=300
+#[kani::proof]
+#[kani::unwind(34)]
+#[kani::stub(alloc::fmt::format, stub_format)]
+#[kani::stub(<anchor_lang::error::Error as core::convert::From<::whirlpool::errors::ErrorCode>>::from, stub_err_from_code)]
+#[kani::stub(<::whirlpool::pinocchio::errors::UnifiedError as core::convert::From<::whirlpool::errors::ErrorCode>>::from, stub_unified_from_code)]
+fn c05_tick_lower_net_withdraw_anchor() {
+    tick_step::<Anchor>(false, T_NET_WITHDRAW);
+}
+
+/// (a) `next_tick_modify_liquidity_update`, this position counted as lower bound, ghost sums a (others with lower == t), b (others with upper == t): Err <=> gross + delta leaves u128, or tick stays in use and net +/- delta leaves i128; error codes
+// @verif prop=C05 tier=quick timeout=300
+#[kani::proof]
+#[kani::unwind(34)]
+#[kani::stub(alloc::fmt::format, stub_format)]
+#[kani::stub(<anchor_lang::error::Error as core::convert::From<::whirlpool::errors::ErrorCode>>::from, stub_err_from_code)]
+#[kani::stub(<::whirlpool::pinocchio::errors::UnifiedError as core::convert::From<::whirlpool::errors::ErrorCode>>::from, stub_unified_from_code)]
+fn c05_tick_lower_err_anchor() {
+    tick_step::<Anchor>(false, T_ERR);
+}
+
+/// (a) `next_tick_modify_liquidity_update`, this position counted as upper bound, ghost sums a (others with lower == t), b (others with upper == t): gross == a + b + lp', initialized <=> gross != 0, delta == 0 is a no-op
+// @verif prop=C05 tier=quick timeout=300
+#[kani::proof]
+#[kani::unwind(34)]
+#[kani::stub(alloc::fmt::format, stub_format)]
+#[kani::stub(<anchor_lang::error::Error as core::convert::From<::whirlpool::errors::ErrorCode>>::from, stub_err_from_code)]
+#[kani::stub(<::whirlpool::pinocchio::errors::UnifiedError as core::convert::From<::whirlpool::errors::ErrorCode>>::from, stub_unified_from_code)]
+fn c05_tick_upper_gross_anchor() {
+    tick_step::<Anchor>(true, T_GROSS);
+}
+
+/// (a) `next_tick_modify_liquidity_update`, this position counted as upper bound, ghost sums a (others with lower == t), b (others with upper == t): delta > 0: net == lower sum - upper sum in ℤ
+// @verif prop=C05 tier=quick timeout=300
+#[kani::proof]
+#[kani::unwind(34)]
+#[kani::stub(alloc::fmt::format, stub_format)]
+#[kani::stub(<anchor_lang::error::Error as core::convert::From<::whirlpool::errors::ErrorCode>>::from, stub_err_from_code)]
+#[kani::stub(<::whirlpool::pinocchio::errors::UnifiedError as core::convert::From<::whirlpool::errors::ErrorCode>>::from, stub_unified_from_code)]
+fn c05_tick_upper_net_deposit_anchor() {
+    tick_step::<Anchor>(true, T_NET_DEPOSIT);
+}
+
+/// (a) `next_tick_modify_liquidity_update`, this position counted as upper bound, ghost sums a (others with lower == t), b (others with upper == t): delta < 0: net == lower sum - upper sum in ℤ
+// @verif prop=C05 tier=quick timeout=300
+#[kani::proof]
+#[kani::unwind(34)]
+#[kani::stub(alloc::fmt::format, stub_format)]
+#[kani::stub(<anchor_lang::error::Error as core::convert::From<::whirlpool::errors::ErrorCode>>::from, stub_err_from_code)]
+#[kani::stub(<::whirlpool::pinocchio::errors::UnifiedError as core::convert::From<::whirlpool::errors::ErrorCode>>::from, stub_unified_from_code)]
+fn c05_tick_upper_net_withdraw_anchor() {
+    tick_step::<Anchor>(true, T_NET_WITHDRAW);
+}
+
+/// (a) `next_tick_modify_liquidity_update`, this position counted as upper bound, ghost sums a (others with lower == t), b (others with upper == t): Err <=> gross + delta leaves u128, or tick stays in use and net +/- delta leaves i128; error codes
+// @verif prop=C05 tier=quick timeout=300
+#[kani::proof]
+#[kani::unwind(34)]
+#[kani::stub(alloc::fmt::format, stub_format)]
+#[kani::stub(<anchor_lang::error::Error as core::convert::From<::whirlpool::errors::ErrorCode>>::from, stub_err_from_code)]
+#[kani::stub(<::whirlpool::pinocchio::errors::UnifiedError as core::convert::From<::whirlpool::errors::ErrorCode>>::from, stub_unified_from_code)]
+fn c05_tick_upper_err_anchor() {
+    tick_step::<Anchor>(true, T_ERR);
+}
+
+/// (a) position.liquidity `next_position_modify_liquidity_update`: == lp + delta, Err(LiquidityOverflow/Underflow) iff that leaves u128
+// @verif prop=C05 tier=quick timeout=300 contract
+#[kani::proof]
+#[kani::unwind(34)]
+#[kani::stub(alloc::fmt::format, stub_format)]
+#[kani::stub(<anchor_lang::error::Error as core::convert::From<::whirlpool::errors::ErrorCode>>::from, stub_err_from_code)]
+#[kani::stub(<::whirlpool::pinocchio::errors::UnifiedError as core::convert::From<::whirlpool::errors::ErrorCode>>::from, stub_unified_from_code)]
+#[kani::stub(::whirlpool::math::bit_math::checked_mul_shift_right, stub_ms_any)]
+fn c05_position_anchor() {
+    pos_step::<Anchor>();
+}
+
+/// (a) `pino_next_tick_modify_liquidity_update`, this position counted as lower bound, ghost sums a (others with lower == t), b (others with upper == t): gross == a + b + lp', initialized <=> gross != 0, delta == 0 is a no-op
+// @verif prop=C05 tier=quick timeout=300
+#[kani::proof]
+#[kani::unwind(34)]
+#[kani::stub(alloc::fmt::format, stub_format)]
+#[kani::stub(<anchor_lang::error::Error as core::convert::From<::whirlpool::errors::ErrorCode>>::from, stub_err_from_code)]
+#[kani::stub(<::whirlpool::pinocchio::errors::UnifiedError as core::convert::From<::whirlpool::errors::ErrorCode>>::from, stub_unified_from_code)]
+fn c05_tick_lower_gross_pino() {
+    tick_step::<Pino>(false, T_GROSS);
+}
+
+/// (a) `pino_next_tick_modify_liquidity_update`, this position counted as lower bound, ghost sums a (others with lower == t), b (others with upper == t): delta > 0: net == lower sum - upper sum in ℤ
+// @verif prop=C05 tier=quick timeout=300
+#[kani::proof]
+#[kani::unwind(34)]
+#[kani::stub(alloc::fmt::format, stub_format)]
+#[kani::stub(<anchor_lang::error::Error as core::convert::From<::whirlpool::errors::ErrorCode>>::from, stub_err_from_code)]
+#[kani::stub(<::whirlpool::pinocchio::errors::UnifiedError as core::convert::From<::whirlpool::errors::ErrorCode>>::from, stub_unified_from_code)]
+fn c05_tick_lower_net_deposit_pino() {
+    tick_step::<Pino>(false, T_NET_DEPOSIT);
+}
+
+/// (a) `pino_next_tick_modify_liquidity_update`, this position counted as lower bound, ghost sums a (others with lower == t), b (others with upper == t): delta < 0: net == lower sum - upper sum in ℤ
+// @verif prop=C05 tier=quick timeout=300
+#[kani::proof]
+#[kani::unwind(34)]
+#[kani::stub(alloc::fmt::format, stub_format)]
+#[kani::stub(<anchor_lang::error::Error as core::convert::From<::whirlpool::errors::ErrorCode>>::from, stub_err_from_code)]
+#[kani::stub(<::whirlpool::pinocchio::errors::UnifiedError as core::convert::From<::whirlpool::errors::ErrorCode>>::from, stub_unified_from_code)]
+fn c05_tick_lower_net_withdraw_pino() {
+    tick_step::<Pino>(false, T_NET_WITHDRAW);
+}
+
+/// (a) `pino_next_tick_modify_liquidity_update`, this position counted as lower bound, ghost sums a (others with lower == t), b (others with upper == t): Err <=> gross + delta leaves u128, or tick stays in use and net +/- delta leaves i128; error codes
+// @verif prop=C05 tier=quick timeout=300
+#[kani::proof]
+#[kani::unwind(34)]
+#[kani::stub(alloc::fmt::format, stub_format)]
+#[kani::stub(<anchor_lang::error::Error as core::convert::From<::whirlpool::errors::ErrorCode>>::from, stub_err_from_code)]
+#[kani::stub(<::whirlpool::pinocchio::errors::UnifiedError as core::convert::From<::whirlpool::errors::ErrorCode>>::from, stub_unified_from_code)]
+fn c05_tick_lower_err_pino() {
+    tick_step::<Pino>(false, T_ERR);
+}
+
+/// (a) `pino_next_tick_modify_liquidity_update`, this position counted as upper bound, ghost sums a (others with lower == t), b (others with upper == t): gross == a + b + lp', initialized <=> gross != 0, delta == 0 is a no-op
+// @verif prop=C05 tier=quick timeout=300
+#[kani::proof]
+#[kani::unwind(34)]
+#[kani::stub(alloc::fmt::format, stub_format)]
+#[kani::stub(<anchor_lang::error::Error as core::convert::From<::whirlpool::errors::ErrorCode>>::from, stub_err_from_code)]
+#[kani::stub(<::whirlpool::pinocchio::errors::UnifiedError as core::convert::From<::whirlpool::errors::ErrorCode>>::from, stub_unified_from_code)]
+fn c05_tick_upper_gross_pino() {
+    tick_step::<Pino>(true, T_GROSS);
+}
+
+/// (a) `pino_next_tick_modify_liquidity_update`, this position counted as upper bound, ghost sums a (others with lower == t), b (others with upper == t): delta > 0: net == lower sum - upper sum in ℤ
+// @verif prop=C05 tier=quick timeout=300
+#[kani::proof]
+#[kani::unwind(34)]
+#[kani::stub(alloc::fmt::format, stub_format)]
+#[kani::stub(<anchor_lang::error::Error as core::convert::From<::whirlpool::errors::ErrorCode>>::from, stub_err_from_code)]
+#[kani::stub(<::whirlpool::pinocchio::errors::UnifiedError as core::convert::From<::whirlpool::errors::ErrorCode>>::from, stub_unified_from_code)]
+fn c05_tick_upper_net_deposit_pino() {
+    tick_step::<Pino>(true, T_NET_DEPOSIT);
+}
+
+/// (a) `pino_next_tick_modify_liquidity_update`, this position counted as upper bound, ghost sums a (others with lower == t), b (others with upper == t): delta < 0: net == lower sum - upper sum in ℤ
+// @verif prop=C05 tier=quick timeout=300
+#[kani::proof]
+#[kani::unwind(34)]
+#[kani::stub(alloc::fmt::format, stub_format)]
+#[kani::stub(<anchor_lang::error::Error as core::convert::From<::whirlpool::errors::ErrorCode>>::from, stub_err_from_code)]
+#[kani::stub(<::whirlpool::pinocchio::errors::UnifiedError as core::convert::From<::whirlpool::errors::ErrorCode>>::from, stub_unified_from_code)]
+fn c05_tick_upper_net_withdraw_pino() {
+    tick_step::<Pino>(true, T_NET_WITHDRAW);
+}
+
+/// (a) `pino_next_tick_modify_liquidity_update`, this position counted as upper bound, ghost sums a (others with lower == t), b (others with upper == t): Err <=> gross + delta leaves u128, or tick stays in use and net +/- delta leaves i128; error codes
+// @verif prop=C05 tier=quick timeout=300
+#[kani::proof]
+#[kani::unwind(34)]
+#[kani::stub(alloc::fmt::format, stub_format)]
+#[kani::stub(<anchor_lang::error::Error as core::convert::From<::whirlpool::errors::ErrorCode>>::from, stub_err_from_code)]
+#[kani::stub(<::whirlpool::pinocchio::errors::UnifiedError as core::convert::From<::whirlpool::errors::ErrorCode>>::from, stub_unified_from_code)]
+fn c05_tick_upper_err_pino() {
+    tick_step::<Pino>(true, T_ERR);
+}
+
+/// (a) position.liquidity `pino_next_position_modify_liquidity_update`: == lp + delta, Err(LiquidityOverflow/Underflow) iff that leaves u128
+// @verif prop=C05 tier=quick timeout=300 contract
+#[kani::proof]
+#[kani::unwind(34)]
+#[kani::stub(alloc::fmt::format, stub_format)]
+#[kani::stub(<anchor_lang::error::Error as core::convert::From<::whirlpool::errors::ErrorCode>>::from, stub_err_from_code)]
+#[kani::stub(<::whirlpool::pinocchio::errors::UnifiedError as core::convert::From<::whirlpool::errors::ErrorCode>>::from, stub_unified_from_code)]
+#[kani::stub(::whirlpool::math::bit_math::checked_mul_shift_right, stub_ms_any)]
+fn c05_position_pino() {
+    pos_step::<Pino>();
+}
+
+/// (a) wiring `calculate_modify_liquidity` + `sync_modify_liquidity_values`: stored pool / tick / position liquidity fields == the component functions on the same pre-state (upper/lower not swapped, right tick indexes, same delta); Err iff LiquidityZero / earlier timestamp / a component fails; any placement, one or two tick arrays
+// @verif prop=C05 tier=thorough timeout=900 contract
+#[kani::proof]
+#[kani::unwind(34)]
+#[kani::stub(alloc::fmt::format, stub_format)]
+#[kani::stub(<anchor_lang::error::Error as core::convert::From<::whirlpool::errors::ErrorCode>>::from, stub_err_from_code)]
+#[kani::stub(<::whirlpool::pinocchio::errors::UnifiedError as core::convert::From<::whirlpool::errors::ErrorCode>>::from, stub_unified_from_code)]
+#[kani::stub(::whirlpool::math::bit_math::checked_mul_div, stub_md_any)]
+#[kani::stub(::whirlpool::math::bit_math::checked_mul_shift_right, stub_ms_any)]
+fn c05_wiring_anchor() {
+    wiring::<Anchor>(false);
+}
+
+/// (a) wiring `pino_calculate_modify_liquidity` + `pino_sync_modify_liquidity_values`: as c05_wiring_anchor on the Pinocchio pair (same account bytes)
+// @verif prop=C05 tier=thorough timeout=900 contract
+#[kani::proof]
+#[kani::unwind(34)]
+#[kani::stub(alloc::fmt::format, stub_format)]
+#[kani::stub(<anchor_lang::error::Error as core::convert::From<::whirlpool::errors::ErrorCode>>::from, stub_err_from_code)]
+#[kani::stub(<::whirlpool::pinocchio::errors::UnifiedError as core::convert::From<::whirlpool::errors::ErrorCode>>::from, stub_unified_from_code)]
+#[kani::stub(::whirlpool::math::bit_math::checked_mul_div, stub_md_any)]
+#[kani::stub(::whirlpool::math::bit_math::checked_mul_shift_right, stub_ms_any)]
+fn c05_wiring_pino() {
+    wiring::<Pino>(true);
+}
+
+/// (b) `calculate_update`: crossing tick t with ghost sums a (lower == t), b (upper == t), c (spanning): a_to_b: pre == sum covering [t, next), post == sum covering [prev, t); tick net / gross unchanged
+// @verif prop=C05 tier=quick timeout=300
+#[kani::proof]
+#[kani::unwind(34)]
+#[kani::stub(alloc::fmt::format, stub_format)]
+#[kani::stub(<anchor_lang::error::Error as core::convert::From<::whirlpool::errors::ErrorCode>>::from, stub_err_from_code)]
+#[kani::stub(<::whirlpool::pinocchio::errors::UnifiedError as core::convert::From<::whirlpool::errors::ErrorCode>>::from, stub_unified_from_code)]
+fn c05_cross_down() {
+    crossing_step(true);
+}
+
+/// (b) `calculate_update` from any pre liquidity and stored tick: returns liquidity - net, Err(LiquidityOverflow/Underflow) iff that leaves u128
+// @verif prop=C05 tier=quick timeout=300
+#[kani::proof]
+#[kani::unwind(34)]
+#[kani::stub(alloc::fmt::format, stub_format)]
+#[kani::stub(<anchor_lang::error::Error as core::convert::From<::whirlpool::errors::ErrorCode>>::from, stub_err_from_code)]
+#[kani::stub(<::whirlpool::pinocchio::errors::UnifiedError as core::convert::From<::whirlpool::errors::ErrorCode>>::from, stub_unified_from_code)]
+fn c05_cross_error_iff_down() {
+    crossing_error_iff(true);
+}
+
+/// (b) `calculate_update`: crossing tick t with ghost sums a (lower == t), b (upper == t), c (spanning): b_to_a: pre == sum covering [prev, t), post == sum covering [t, next); tick net / gross unchanged
+// @verif prop=C05 tier=quick timeout=300
+#[kani::proof]
+#[kani::unwind(34)]
+#[kani::stub(alloc::fmt::format, stub_format)]
+#[kani::stub(<anchor_lang::error::Error as core::convert::From<::whirlpool::errors::ErrorCode>>::from, stub_err_from_code)]
+#[kani::stub(<::whirlpool::pinocchio::errors::UnifiedError as core::convert::From<::whirlpool::errors::ErrorCode>>::from, stub_unified_from_code)]
+fn c05_cross_up() {
+    crossing_step(false);
+}
+
+/// (b) `calculate_update` from any pre liquidity and stored tick: returns liquidity + net, Err(LiquidityOverflow/Underflow) iff that leaves u128
+// @verif prop=C05 tier=quick timeout=300
+#[kani::proof]
+#[kani::unwind(34)]
+#[kani::stub(alloc::fmt::format, stub_format)]
+#[kani::stub(<anchor_lang::error::Error as core::convert::From<::whirlpool::errors::ErrorCode>>::from, stub_err_from_code)]
+#[kani::stub(<::whirlpool::pinocchio::errors::UnifiedError as core::convert::From<::whirlpool::errors::ErrorCode>>::from, stub_unified_from_code)]
+fn c05_cross_error_iff_up() {
+    crossing_error_iff(false);
+}
+
+/// vacuity twin: crossing a tick with non-zero net DOES change the liquidity — must FAIL
+// @verif prop=C05 tier=quick timeout=300 twin
+#[kani::proof]
+#[kani::unwind(34)]
+#[kani::stub(alloc::fmt::format, stub_format)]
+#[kani::stub(<anchor_lang::error::Error as core::convert::From<::whirlpool::errors::ErrorCode>>::from, stub_err_from_code)]
+#[kani::stub(<::whirlpool::pinocchio::errors::UnifiedError as core::convert::From<::whirlpool::errors::ErrorCode>>::from, stub_unified_from_code)]
+fn c05_twin_must_fail() {
+    let t = any_tick();
+    let liq: u128 = kani::any();
+    let ga: u128 = kani::any();
+    let gb: u128 = kani::any();
+    let rw = Rw::any();
+    kani::assume(t_net(&t) != i128::MIN);
+    let r = verif_calculate_update(&tick_of(&t), false, liq, ga, gb, &rw.anchor());
+    let same = match &r {
+        Ok((_, next)) => *next == liq,
+        Err(_) => true,
+    };
+    core::mem::forget(r);
+    assert!(same, "twin: crossing a tick with non-zero net must change the liquidity");
+}
